@@ -280,3 +280,55 @@ def check_config_settings_as_requested(
                        + ': on some path the stage runs with a setting '
                        'that was not asked for')
     return n
+
+
+def check_keywords_not_crossed(ctx, fi, rule='R-FWD/keyword-not-crossed'):
+    """in a call with keywords (or a dict of keyword arguments for a
+    worker) where one slot is named like a local that is handed over in the
+    same call, each such slot gets its namesake: `q1_min_th=q1_min_th,
+    qdiff_min_th=q1_min_th` hands the worker one threshold twice and drops
+    the other."""
+    import ast
+    n = 0
+    for c in ast.walk(fi.node):
+        pairs = []
+        if isinstance(c, ast.Call) and c.keywords:
+            pairs = [(k.arg, k.value) for k in c.keywords
+                     if k.arg is not None]
+        elif isinstance(c, ast.Dict) and c.keys and all(
+                isinstance(k, ast.Constant) and isinstance(k.value, str)
+                for k in c.keys):
+            pairs = [(k.value, v) for k, v in zip(c.keys, c.values)]
+        if len(pairs) < 2:
+            continue
+        slots = {k for k, _ in pairs}
+        for k, v in pairs:
+            if not isinstance(v, ast.Name):
+                continue
+            # both the slot and the value name something handed over here
+            if v.id in slots and any(
+                    isinstance(v2, ast.Name) and v2.id == v.id
+                    for k2, v2 in pairs if k2 == v.id):
+                n += 1
+                ok = v.id == k
+                ctx.touch(fi)
+                if not ok:
+                    # ... and the caller has a value of that name to give
+                    from ..core.cfg import cfg_of
+                    from ..core.defuse import rd_of
+                    rd = rd_of(fi)
+                    have = k in fi.params or any(
+                        rd.reaching(k, nd.id)
+                        for nd in cfg_of(fi).node_of_expr(v)
+                        if nd.id in rd.live)
+                    if not have:
+                        continue
+                    ctx.ob(rule, f'{fi.qual}:{k}<-{v.id}', fi.loc(v), False,
+                           f'slot `{k}` is given `{v.id}`, which this same '
+                           f'call also hands to its own slot `{v.id}`: '
+                           f'`{k}` of the caller is dropped and the callee '
+                           'works with one value in two roles')
+    if n:
+        ctx.ob(rule, f'{fi.qual}:slots', fi.loc(fi.node), True,
+               f'{n} namesake slot(s) get their namesakes')
+    return n
